@@ -420,7 +420,7 @@ class Case:
             deadline = time.time() + 40 * h.poll
             for c in h.conns:
                 for nm, t in (("reader", c._read_thread), ("writer", c._write_thread)):
-                    if t.is_alive():
+                    if t is not None and t.is_alive():
                         if not t.is_stopped:
                             kind = "refused_newcomer" if (newcomer is not None and c.ident == "00" * 6) else (
                                 "unregistered_connection" if c.ident == "00" * 6 else "registered_connection")
